@@ -891,7 +891,7 @@ func strictMws(opt serveOpt) []StrictMiddlewareFunc {
 	fiberServe := func(si, extra string) string {
 		return `
 func serve(req wireReq, opt serveOpt) (out map[string]interface{}) {
-	app := fiber.New(fiber.Config{DisableStartupMessage: true})
+	app := fiber.New(fiber.Config{DisableStartupMessage: true, StrictRouting: true}) // /a and /a/ are different paths of the document
 	var ms []MiddlewareFunc
 	for i := 0; i < opt.Mw; i++ {
 		i := i
